@@ -22,6 +22,7 @@ type Engine struct {
 	MaxSteps      int
 	MaxConcretize int
 	MaxPaths      int
+	MaxViolations int
 	MapSchedule   bool
 	MaxSchedDev   int // max number of map-iteration sites deviating from offset 0
 	Verbose       bool
@@ -49,7 +50,7 @@ type intrinsicFn func(fr *frame, args []value) value
 
 func NewEngine(prog *ssa.Program) *Engine {
 	e := &Engine{
-		Prog: prog, MaxSteps: 5_000_000, MaxConcretize: 70, MaxPaths: 200000, Workers: 16,
+		Prog: prog, MaxSteps: 5_000_000, MaxConcretize: 70, MaxPaths: 200000, MaxViolations: 300, Workers: 16,
 		SolverTimeout: 20000, CrossTimeout: 5000, LIASolver: "cvc5", CrossSolver: "z3", CrossCheck: true, Coverage: map[string]int{},
 	}
 	e.intrinsics = map[string]intrinsicFn{}
@@ -127,6 +128,7 @@ type PathResult struct {
 	CrossUnknown int
 	Mode        string // lia | bv
 	BVReason    string
+	RangeRepairs int
 }
 
 type Obs struct {
@@ -194,6 +196,30 @@ func (m *Machine) newVar(name string, w int, signed bool) *smt.Term {
 	return v
 }
 
+// repairRanges tries to establish, by solver queries under the path condition, the ranges that make t
+// expressible in the integer view. Sound because the path condition only grows along a path.
+func (m *Machine) repairRanges(t *smt.Term) bool {
+	for round := 0; round < 4; round++ {
+		needs := m.lia.Needs(t)
+		if len(needs) == 0 {
+			return true
+		}
+		progress := false
+		for _, n := range needs {
+			if m.sess.OutOfRange(n.T, n.Lo, n.Hi) != smt.Unsat {
+				return false
+			}
+			m.lia.MarkRange(n.T, n.Lo, n.Hi)
+			m.res.RangeRepairs++
+			progress = true
+		}
+		if !progress {
+			return false
+		}
+	}
+	return m.sess.CanAssert(t)
+}
+
 // needBV switches the path to the bit-vector encoding if t is not expressible in the integer view.
 func (m *Machine) needBV(ts ...*smt.Term) {
 	if m.sess.Mode == smt.ModeBV {
@@ -202,6 +228,11 @@ func (m *Machine) needBV(ts ...*smt.Term) {
 	ok := true
 	for _, t := range ts {
 		if !m.sess.CanAssert(t) {
+			// the static bounds may be too coarse: ask the solver whether the path condition keeps the
+			// offending sub-terms inside the range the integer view needs
+			if m.repairRanges(t) && m.sess.CanAssert(t) {
+				continue
+			}
 			ok = false
 			s := t.String()
 			if len(s) > 300 {
@@ -595,6 +626,7 @@ type HarnessResult struct {
 	SolverTime  map[string]time.Duration
 	SolverErrs  []string
 	Truncated   bool
+	StoppedOnViolations bool
 	CrossQueries int
 	CrossUnknown int
 	Pruned      int
@@ -630,6 +662,7 @@ func (e *Engine) RunHarness(fn *ssa.Function, keepModels int) *HarnessResult {
 	active := 0
 	started := 0
 	eligible := 0
+	unattributed := 0
 	rng := rand.New(rand.NewSource(e.Seed + int64(len(fn.Name()))))
 	nw := e.Workers
 	if nw < 1 {
@@ -668,6 +701,17 @@ func (e *Engine) RunHarness(fn *ssa.Function, keepModels int) *HarnessResult {
 					mu.Unlock()
 					cond.Broadcast()
 					return
+				}
+				if unattributed >= e.MaxViolations && e.MaxViolations > 0 {
+					// enough counterexamples: stop exploring (the run reports them; it is not a clean pass anyway)
+					hr.StoppedOnViolations = true
+					work = nil
+					mu.Unlock()
+					cond.Broadcast()
+					if active == 0 {
+						return
+					}
+					continue
 				}
 				if started >= e.MaxPaths || (e.WallLimit > 0 && time.Since(t0) > e.WallLimit) {
 					hr.Truncated = true
@@ -727,6 +771,11 @@ func (e *Engine) RunHarness(fn *ssa.Function, keepModels int) *HarnessResult {
 					hr.Unsupported[pr.Status+": "+d]++
 				}
 				hr.Violations = append(hr.Violations, pr.Violations...)
+				for _, v := range pr.Violations {
+					if len(v.Known) == 0 {
+						unattributed++ // counterexamples inside vf_Known regions never stop the exploration
+					}
+				}
 				if len(hr.Samples) < 5 && (pr.Status == "ok" || pr.Status == "panic") {
 					obs := map[string]string{}
 					for _, o := range pr.Observed {
